@@ -17,11 +17,13 @@ import (
 	"sync"
 	"sync/atomic"
 	"testing"
+	"time"
 
 	"github.com/fabiolb/fabio/config"
 	"github.com/fabiolb/fabio/proxy"
 	"github.com/fabiolb/fabio/proxy/gzip"
 	"github.com/fabiolb/fabio/route"
+	"github.com/fabiolb/fabio/transport"
 	"pgregory.net/rapid"
 
 	"verifharness/hx"
@@ -431,19 +433,26 @@ func TestC17ThroughProxy(t *testing.T) {
 	}))
 	defer up.Close()
 	upURL, _ := url.Parse(up.URL)
-	mk := func(re *regexp.Regexp) *httptest.Server {
+	// the transport is the one fabio builds for itself (transport.NewTransport: Go's transparent
+	// decompression is NOT switched off there); flush intervals as configured by
+	// proxy.flushinterval / proxy.globalflushinterval
+	transport.SetConfig(&config.Config{})
+	mk := func(re *regexp.Regexp, flush time.Duration) *httptest.Server {
 		return httptest.NewServer(&proxy.HTTPProxy{
 			Stats:     mwire.Stats(),
-			Config:    config.Proxy{GZIPContentTypes: re},
-			Transport: &http.Transport{DisableCompression: true},
+			Config:    config.Proxy{GZIPContentTypes: re, FlushInterval: flush, GlobalFlushInterval: flush},
+			Transport: transport.NewTransport(nil),
 			Lookup: func(r *http.Request) *route.Target {
 				return &route.Target{Service: "svc", URL: upURL}
 			},
 		})
 	}
-	withGzip, without := mk(ctRe), mk(nil)
+	withGzip, without := mk(ctRe, 0), mk(nil, 0)
+	withGzipF, withoutF := mk(ctRe, 10*time.Millisecond), mk(nil, 10*time.Millisecond)
 	defer withGzip.Close()
 	defer without.Close()
+	defer withGzipF.Close()
+	defer withoutF.Close()
 	hx.Check(t, hx.Scale(600, 20000), func(t *rapid.T) {
 		s, r := genResp(t), genReq(t)
 		if len(s.body()) > 300000 {
@@ -456,12 +465,29 @@ func TestC17ThroughProxy(t *testing.T) {
 		if s.status == 301 {
 			s.status = 200 // keep clear of redirect handling in clients
 		}
+		if s.encoding == "gzip" && len(s.body()) > 0 {
+			// an upstream that labels its body gzip sends gzip (fabio's transport decodes it for
+			// clients that did not ask for any encoding, as Go's transport does by default)
+			var zb bytes.Buffer
+			zw := stdgzip.NewWriter(&zb)
+			zw.Write(s.body())
+			zw.Close()
+			s.chunks = [][]byte{zb.Bytes()}
+			if s.flushAt >= len(s.chunks) {
+				s.flushAt = 0
+			}
+		}
 		cur.Store(s)
-		got, err := rawExchange(withGzip.Listener.Addr().String(), r, "/x")
+		wg, wo := withGzip, without
+		flushing := rapid.IntRange(0, 2).Draw(t, "flush-interval-configured") == 0
+		if flushing {
+			wg, wo = withGzipF, withoutF
+		}
+		got, err := rawExchange(wg.Listener.Addr().String(), r, "/x")
 		if err != nil {
 			t.Fatalf("exchange failed: %v\n%s", err, ctxOf(s, r))
 		}
-		plain, err := rawExchange(without.Listener.Addr().String(), r, "/x")
+		plain, err := rawExchange(wo.Listener.Addr().String(), r, "/x")
 		if err != nil {
 			t.Fatalf("exchange failed: %v\n%s", err, ctxOf(s, r))
 		}
@@ -475,7 +501,19 @@ func TestC17ThroughProxy(t *testing.T) {
 				s2.typeUnknown = true
 			}
 		}
-		compressed := judge(func(f string, a ...any) { t.Fatalf(f, a...) }, s2, r, got, plain, bodyVisible, "through HTTPProxy\n"+ctxOf(s, r))
+		compressed := judge(func(f string, a ...any) { t.Fatalf(f, a...) }, s2, r, got, plain, bodyVisible, fmt.Sprintf("through HTTPProxy (flush interval configured: %v)\n", flushing)+ctxOf(s, r))
+		// what the upstream encoded itself reaches a client that asked for an encoding byte for byte, with its label
+		// (a client that sent no Accept-Encoding gets Go's transparent decoding of gzip, as in production)
+		if s.encoding != "" && bodyVisible && r.acceptEncoding != "-" && r.acceptEncoding != "" {
+			for _, w := range []wire{got, plain} {
+				if w.header.Get("Content-Encoding") != s.encoding || !bytes.Equal(w.body, s.body()) {
+					t.Fatalf("the upstream sent %d bytes labelled Content-Encoding: %s; the client (Accept-Encoding: %s) received %d bytes labelled %q (flush interval configured: %v)\n%s", len(s.body()), s.encoding, r.acceptEncoding, len(w.body), w.header.Get("Content-Encoding"), flushing, ctxOf(s, r))
+				}
+			}
+		}
+		if flushing {
+			hx.Class("proxy:flush-interval-configured")
+		}
 		classify(s, compressed)
 		if r.method == "HEAD" {
 			hx.Class("proxy:HEAD")
